@@ -867,12 +867,26 @@ class Bracket:
                 self.counter_syms.add(f"{nm}@{tag}")
         always = isinstance(s, ast.While) and isinstance(s.test, ast.Constant) and bool(s.test.value)
 
-        def one_pass(NF, head_defs):
+        def holds(e, t, x, sg):
+            a, b = e.env.get(t), e.env.get(x)
+            if not rat(a) or not rat(b):
+                return False
+            try:
+                return same(a, self.at(b) if sg > 0 else -self.at(b))
+            except Unsupported:
+                return False
+
+        # a carried name that holds the residual at another carried name (fb = f(b), kept up to date by the body) stays tied to it
+        REL = {(t, x, sg) for t in carried for x in carried if t != x for sg in (1, -1) if holds(st, t, x, sg)}
+
+        def one_pass(NF, rel_, head_defs):
             head = st.copy()
             for nm in carried:
                 head.env[nm] = F.sym(f"{nm}@{tag}")
                 if head_defs.get(nm):
                     head.defs[nm] = frozenset(head_defs[nm])
+            for t, x, sg in sorted(rel_):
+                head.env[t] = self.at(head.env[x]) if sg > 0 else -self.at(head.env[x])
             for nm, rel in NF:
                 head.add(head.env[nm], rel)
             frame = {"breaks": [], "continues": []}
@@ -897,9 +911,10 @@ class Bracket:
 
         def fixpoint(NF, blame):
             head_defs = {nm: set(st.defs.get(nm, ())) for nm in carried}
+            rel_ = set(REL)
             for _ in range(12):
                 nobs = len(self.observed)
-                exits, back = one_pass(NF, head_defs)
+                exits, back = one_pass(NF, rel_, head_defs)
                 keep = set()
                 for nm, rel in NF:
                     lacking = [e for e in back if not e.has(e.env.get(nm), rel)]
@@ -908,14 +923,15 @@ class Bracket:
                     elif blame:
                         for e in lacking:
                             self.culprits.setdefault(nm, set()).update(e.defs.get(nm, ()))
+                keep_rel = {k for k in rel_ if all(holds(e, *k) for e in back)}
                 nd = {nm: set(head_defs[nm]) for nm in carried}
                 for e in back:
                     for nm in carried:
                         nd[nm] |= set(e.defs.get(nm, ()))
-                if keep == NF and nd == head_defs:
+                if keep == NF and nd == head_defs and keep_rel == rel_:
                     return NF, exits
                 del self.observed[nobs:]
-                NF, head_defs = keep, nd
+                NF, head_defs, rel_ = keep, nd, keep_rel
             raise Unsupported("loop facts do not stabilise")
 
         entry = {(nm, rel) for nm in carried for rel in RELS if st.has(st.env.get(nm), rel)}
